@@ -163,6 +163,17 @@ def close_specs(ctx):
                 sp["inject"] = {"at": at, "ops": [["close"], ["close2", delay]]}
                 sp["exc_rot"] = ctx.seed + at
                 inj.append((sp, {"client": c, "cb": "ret", "shape": "A/close-twice+%g" % delay, "at": at}))
+    # oracle-only: a status callback that is a PLAIN function and raises (an exception it raises does not affect the client,
+    # whatever kind of callable it is); and callbacks given as objects / lambdas
+    for c in clients:
+        for kind in ("syncraise", "obj", "lambda"):
+            sp0 = _spec(c, "ret", "A")
+            sp0["cbkind"] = kind
+            for at in list(range(0, max(0, min(40, npos_of(c, "ret") - 3)), 4 if not thorough else 1)):
+                sp = dict(sp0)
+                sp["inject"] = {"at": at, "ops": [["close"]]}
+                sp["exc_rot"] = ctx.seed + at
+                inj.append((sp, {"client": c, "cb": "ret", "shape": "A/cb-" + kind, "at": at, "oracle_only": True}))
     iobs = vloop.run_batch([dict(sp) for sp, _ in inj], _repo(), wall=6, procs=3)
     for (sp, m), o in zip(inj, iobs):
         m["obs"] = o
